@@ -23,7 +23,138 @@ from rules.C12 import file_parser
 from rules.C01 import check_coord, check_search, check_units, check_queue
 
 
+def check_filter_loop(ctx, out, fp, rule):
+    """The per-block selection decided on the normalised view of the file parser, where
+    `blocks.into_iter().filter_map(|b| ..).collect()` and `for b in blocks { if .. { continue } v.push(..) }`
+    are the same loop: enumerate every path of one iteration from the item to the push of a
+    BlockWithContext (selected) or back to the loop head (dropped), predicates uninterpreted, and compare
+    with the specification on all 8 valuations (filter mode x content touched x start tag touched).
+    Returns True if decided (violations reported or instances counted), None if this shape is absent."""
+    from engine import tables
+    fpv = ctx.inl(fp, skip=ctx.domain_api, tag="domain", sugar=True)
+    cfg = cfg_of(fpv)
+    pushes = [(bi, t) for bi, t in fpv.calls() if callee_matches(t, r"Vec::<T, A>::push$") and "blockwatch::blocks::BlockWithContext" in (t.get("arg_tys") or [""])[0] and bi in cfg.reachable]
+    if len(pushes) != 1:
+        return None
+    pbi, pt = pushes[0]
+    h = cfg.innermost_loop(pbi)
+    if h is None:
+        return None
+    nexts = [(bi, t) for bi, t in fpv.calls() if bi in cfg.loops()[h] and cfg.innermost_loop(bi) == h and callee_matches(t, r"Iterator>?::next$")]
+    if len(nexts) != 1 or not cfg.succ[nexts[0][0]]:
+        return None
+    nb = nexts[0][0]
+    some = util.switch_arms(fpv, cfg.succ[nb][0]).get(1)
+    enum = ctx.facts.adts.get("blockwatch::blocks::BlocksFilter")
+    if some is None or enum is None:
+        return None
+    vmap = {v["name"]: v["vi"] for v in enum["variants"]}
+    # loop-carried state: nothing assigned in the iteration may be read by the next one
+    region = util.iter_region(fpv, nb) | cfg.loops()[h]
+    for x in sorted(region):
+        for s in fpv.blocks[x]["stmts"]:
+            if s["k"] == "assign" and not s["lhs"]["p"]:
+                l = s["lhs"]["l"]
+                loc = fpv.locals[l]
+                if loc.get("user") and loc.get("name") and not loc.get("as_upvar") and any(d[1] not in region for d in fpv.defs().get(l, [])) \
+                        and not re.search(r"::Iter<|::IntoIter<|^\(\)$", loc["ty"]) and "BlockWithContext" not in loc["ty"] and s["rv"]["k"] not in ("agg",) :
+                    if re.search(r"LineChange", loc["ty"]):
+                        out.viol(rule, rule + "|mutable-capture|%s" % loc["name"], ctx.where(fp, s["span"]),
+                                 "`%s` is declared outside the per-block iteration and re-assigned inside it: whether a block is selected then depends on the blocks visited before it (e.g. a nested block no longer sees a change its enclosing block has consumed)" % loc["name"])
+    try:
+        rows, complete = tables.decision_table(ctx.facts, fpv, start=some, stop=lambda x: x == pbi or x == h)
+    except ValueError as e:
+        out.viol(rule, rule + "|unanalysable", ctx.where(fp), "the per-block selection contains a loop (%s); its truth table cannot be enumerated" % e)
+        return True
+
+    def holds(pred, val, fname, c, t):
+        txt = pred
+        neg = False
+        while txt.startswith("Not(") and txt.endswith(")"):
+            txt = txt[4:-1]
+            neg = not neg
+        mk = re.match(r"^discr\((?:[\w<>, ]+::)*(Some|None|Ok|Err)\{", txt)
+        if mk:
+            # the value is an aggregate built on this very path: its variant is known
+            vi = {"None": 0, "Some": 1, "Ok": 0, "Err": 1}[mk.group(1)]
+            m = re.match(r"otherwise\(not ([\d,]+)\)", val)
+            if m:
+                return str(vi) not in m.group(1).split(",")
+            return str(vi) in val.split(",")
+        if re.match(r"^(\w+::)*content_intersects_with_any\(", txt):
+            truth = c
+        elif re.match(r"^(\w+::)*start_tag_intersects_with_any\(", txt):
+            truth = t
+        elif txt.startswith("discr(") and ("BlocksFilter" in txt or "blocks_filter" in txt or "filter" in txt.lower()):
+            vi = vmap[fname]
+            m = re.match(r"otherwise\(not ([\d,]+)\)", val)
+            if m:
+                return str(vi) not in m.group(1).split(",")
+            return str(vi) in val.split(",")
+        else:
+            return None
+        truth = (not truth) if neg else truth
+        want = {"true": True, "false": False, "1": True, "0": False}.get(val)
+        if want is None:
+            m = re.match(r"otherwise\(not ([\d,]+)\)", val)
+            if m:
+                return (1 if truth else 0) not in [int(x) for x in m.group(1).split(",")]
+            return None
+        return truth == want
+
+    n = 0
+    shown = []
+    for fname, c, t in itertools.product(vmap, (True, False), (True, False)):
+        ends = set()
+        for r in rows:
+            ok = True
+            for pred, val in r["preds"]:
+                hv = holds(pred, val, fname, c, t)
+                if hv is None:
+                    # a test that is neither the mode nor one of the two intersection results: Try / Option
+                    # plumbing of the iteration itself is neutral, anything else is not analysable
+                    if re.search(r"Try>::branch|Iterator>?::next|discr\(_\d+\)$", pred):
+                        continue
+                    out.viol(rule, rule + "|unknown-input", ctx.where(fp), "the per-block selection depends on `%s`, which is neither the filter mode nor one of the two intersection tests" % pred[:120])
+                    return True
+                if not hv:
+                    ok = False
+                    break
+            if ok:
+                ends.add(r["path"][-1] == pbi)
+        selected = True in ends
+        want = (fname == "All") or c or t
+        shown.append("%s c=%s t=%s -> %s" % (fname, c, t, selected))
+        if len(ends) != 1:
+            out.viol(rule, rule + "|unanalysable", ctx.where(fp), "with filter=%s, content touched=%s, start tag touched=%s the paths of the selection do not agree (%s)" % (fname, c, t, sorted(ends)))
+            return True
+        if selected != want:
+            out.viol(rule, rule + "|row|%s|c=%s|t=%s" % (fname, c, t), ctx.where(fp),
+                     "with filter=%s, content touched=%s, start tag touched=%s the block is %s; expected %s" % (fname, c, t, "selected" if selected else "dropped", "selected" if want else "dropped"))
+        else:
+            n += 1
+    # the stored flags are the two test results; the tests see the file's complete change list
+    arg = pt["args"][1]
+    pl = util.op_place(arg)
+    for fld, rx in (("is_content_modified", r"content_intersects_with_any$"), ("_is_start_tag_modified", r"start_tag_intersects_with_any$")):
+        labs = ctx.prov.read_place(fpv, {"l": pl["l"], "p": pl["p"] + [{"f": fld}]}) if pl else set()
+        if not P.has_call(labs, rx) or any(l[0] == "call" and re.search(r"intersects_with_any$", l[1]) and not re.search(rx, l[1]) for l in labs):
+            out.viol(rule, rule + "|flags|%s" % fld, ctx.where(fp, pt["span"]), "the stored flag `%s` does not derive from its own intersection test (origins: %s)" % (fld, util.origins_text(labs, 4)))
+    for bi, t2 in fpv.calls():
+        if callee_matches(t2, r"(content|start_tag)_intersects_with_any$") and bi in region:
+            labs = ctx.prov.read_operand(fpv, t2["args"][1])
+            ps = {l[1] for l in labs if l[0] == "param"}
+            extra = sorted({l[1].split("::")[-1] for l in labs if l[0] == "call" and re.search(r"Index|split|partition_point|binary_search|iter|skip|take|get", l[1])})
+            if ps != {2} or extra:
+                out.viol(rule, rule + "|changes-arg", ctx.where(fp, t2["span"]),
+                         "the intersection test is not made against the file's complete line-change list (parameters %s, through %s): every block must be tested against all changes of the file" % (sorted(ps), extra))
+    out.inst(rule, n, 8, shown, exhaustive=True, note="2 filter modes x 2 x 2 valuations; all paths of one iteration of the block loop in the normalised view")
+    return True
+
+
 def check_filter(ctx, out, fp, rule="C02.filter"):
+    if check_filter_loop(ctx, out, fp, rule):
+        return
     n = 0
     E = ctx.expr(fp)
     clos = None
